@@ -104,6 +104,19 @@ def _run_one(i: int):
             out = fb
     except _Timeout:
         out = undecided("timeout", f"timeout after {ob.timeout}s")
+        if ob.fallback is not None:
+            # running out of time is not a verdict either: the bounded oracle decides (with a time box of its own)
+            signal.alarm(0)
+            signal.signal(signal.SIGALRM, _alarm)
+            signal.alarm(300)
+            try:
+                fb = ob.fallback()
+                fb.detail = f"[proof attempt timed out after {ob.timeout}s] fallback: {fb.detail}"
+                out = fb
+            except _Timeout:
+                out = undecided("timeout", f"timeout after {ob.timeout}s; the bounded oracle timed out as well")
+            except Exception as e2:
+                out = undecided("timeout", f"timeout after {ob.timeout}s; fallback failed: {type(e2).__name__}: {e2}")
     except Exception as e:  # the generator could not process the current text: undecided (never a violation); the bounded oracle takes over
         tb = "".join(traceback.format_exception(e))[-3000:]
         out = undecided("generator", "the VC generator raised on the current text (outside its fragment, or the code raises where no exception is specified): " + tb)
